@@ -170,6 +170,7 @@ func (m *cModel) Step(c *Call) (Model, Expect, bool) {
 	if c.Opt == "allpred" || c.Opt == "anypred" {
 		listed = append(listed, "invalid-option-combination")
 	}
+	nviol := len(listed) + len(unlisted)
 	listed = dedupe(listed)
 	if len(listed)+len(unlisted) == 0 {
 		n.s.status = stCompiled
@@ -178,13 +179,13 @@ func (m *cModel) Step(c *Call) (Model, Expect, bool) {
 	}
 	if len(listed) == 0 {
 		n.s = cState{status: stUnknown}
-		return n, Expect{HasErr: true, V: vEither, Rules: unlisted, Unlisted: true, From: stLive}, true
+		return n, Expect{HasErr: true, V: vEither, Rules: unlisted, Unlisted: true, NViol: nviol, From: stLive}, true
 	}
 	n.s.status = stDead
 	n.s.deadBy = c.Idx
 	n.s.deadPos = s.depth
 	n.s.deadRules = listed
-	return n, Expect{HasErr: true, V: vReject, Rules: listed, From: stLive}, true
+	return n, Expect{HasErr: true, V: vReject, Rules: listed, NViol: nviol, From: stLive}, true
 }
 
 // ---------------------------------------------------------------------------------------------------
